@@ -143,7 +143,7 @@ def run(ctx):
     for cid, rng in ctx.cases([('s', i) for i in range(ns)]):
         mon.cid = cid
         isint = rng.random() < 0.6
-        N = int(rng.integers(50, 600))
+        N = int(rng.integers(50, 600)) if rng.random() < 0.85 else int(rng.integers(4000, 9000))
         if isint:
             spec = zoo.int_spec(rng, n=N, d=3, res=int(rng.choice([256, 1024])))
             # clustered events
@@ -175,6 +175,13 @@ def run(ctx):
             e1 = sub.hist_bins(channels=1, nbins=b1, scale=scale[1])
             ctx.check(np.array_equal(out.bin_edges[0], e0) and np.array_equal(out.bin_edges[1], e1),
                       'density2d:sample-derived-edges', cid, **desc)
+            # the kept set does not depend on the order of the events (also when the edges are derived from the sample)
+            perm = rng.permutation(s.shape[0])
+            o5 = core.attempt(d2, s[perm], chans, cp(bins) if isinstance(bins, list) else bins, f, scale[0], scale[1], sigma, None, True)
+            ctx.counters['chk:metamorphic'] += 1
+            ctx.check((not o5.raised) and np.array_equal(o5.value.mask, out.mask[perm]) and
+                      np.array_equal(o5.value.bin_edges[0], out.bin_edges[0]) and np.array_equal(o5.value.bin_edges[1], out.bin_edges[1]),
+                      'metamorphic:event-order-dependence', cid, **desc)
             o4 = core.attempt(d2, s, chans, [out.bin_edges[0].copy(), out.bin_edges[1].copy()], 0.5, scale[0], scale[1],
                               sigma, out.bin_mask.copy(), True)
             ctx.counters['chk:metamorphic'] += 1
@@ -190,6 +197,8 @@ def run(ctx):
                 ('f<0', lambda: d2(data, [0, 1], 8, -float(rng.random()) - 1e-9, 'linear', 'linear', 2.0)),
                 ('f>1', lambda: d2(data, [0, 1], 8, 1 + float(rng.random()) + 1e-9, 'linear', 'linear', 2.0)),
                 ('f>1 full', lambda: d2(data, [0, 1], 8, 1.0000001, 'linear', 'linear', 2.0, None, True)),
+                ('f barely<0', lambda: d2(data, [0, 1], 8, -1e-12, 'linear', 'linear', 2.0)),
+                ('f barely>1', lambda: d2(data, [0, 1], 8, float(np.nextafter(1.0, 2.0)), 'linear', 'linear', 2.0, None, True)),
                 ('1 channel', lambda: d2(data, [0], 8, 0.5)),
                 ('3 channels', lambda: d2(data, [0, 1, 2], 8, 0.5)),
                 ('1 event', lambda: d2(data[:1], [0, 1], 8, 0.5)),
